@@ -460,9 +460,16 @@ func (c connectStreamClientProtocol) encodeEnd(op *operation, end *responseEnd, 
 	length := buffer.Len()
 	limit := op.methodConf.maxMsgBufferBytes
 	if length > int(limit) {
-		return nil
+		// A stream must not end without telling how it ended. What does not
+		// fit is replaced by a short error that says so.
+		tooLarge := connect.NewError(connect.CodeResourceExhausted,
+			fmt.Errorf("end of stream message (%d bytes) exceeds max buffer size (%d)", length, limit))
+		buffer.Reset()
+		_ = json.NewEncoder(buffer).Encode(&connectStreamEnd{
+			Error: connectErrorToWireError(tooLarge, op.methodConf.resolver),
+		})
 	}
-	env := envelope{trailer: true, length: uint32(buffer.Len())} //nolint:gosec // Length is validated above.
+	env := envelope{trailer: true, length: uint32(buffer.Len())} //nolint:gosec // Bounded by the limit or by the short replacement.
 	envBytes := c.encodeEnvelope(env)
 	_, _ = writer.Write(envBytes[:])
 	_, _ = buffer.WriteTo(writer)
